@@ -869,11 +869,11 @@ Lemma liquidity_loop_partial fuel : forall g dur now last j,
    (cursor_ok g dur (last + (MaxEpochsPerUpdate / 2 - j)) /\
     update_due g dur now (last + (MaxEpochsPerUpdate / 2 - j)) = false)) ->
   (MaxEpochsPerUpdate / 2 - j < 0 -> update_due g dur now last = false) ->
-  liquidity_loop fuel g dur now last (2 * j) = update_loop fuel g dur now last.
+  liquidity_loop_old fuel g dur now last (2 * j) = update_loop fuel g dur now last.
 Proof.
   destruct max_epochs_even as [Hev Hh0]. set (H := MaxEpochsPerUpdate / 2) in *.
   induction fuel as [|k IH]; intros g dur now last j Hok Hn Hj Hnd Hneg; [reflexivity|].
-  cbn [liquidity_loop update_loop]. destruct (update_due g dur now last) eqn:Hdue; cbn [negb]; [|reflexivity].
+  cbn [liquidity_loop_old update_loop]. destruct (update_due g dur now last) eqn:Hdue; cbn [negb]; [|reflexivity].
   destruct (cursor_ok_step _ _ _ _ Hok Hn Hdue) as [Hok' Hw]. rewrite Hw.
   assert (Hlt : j < H).
   { destruct (Z_lt_le_dec j H) as [|Hge]; [assumption|exfalso].
@@ -1009,7 +1009,7 @@ Proof.
         rewrite B. unfold credited. cbn [map]. rewrite zsum_cons. fold (credited tok a ops). lia.
 Qed.
 
-(* ------------------------------------------------------------------ finding: updateLiquidityRewards skips an epoch.
+(* ------------------------------------------------------------------ finding (fixed in /repo a732e8e): the old updateLiquidityRewards skips an epoch.
    With more than MaxEpochsPerUpdate/2 epochs due, the loop stores LastEpoch+1 (inside
    checkAndPerformUpdateEpoch) and only then notices len(result) >= MaxEpochsPerUpdate and returns: the
    cursor has passed an epoch for which no reward was minted.  Witness: genesis 0, 1-second epochs,
@@ -1017,7 +1017,7 @@ Qed.
 Lemma liquidity_cursor_refuted :
   exists g dur now last es l',
     cursor_ok g dur last /\ now < two62 /\
-    liquidity_loop 100 g dur now last 0 = Some (es, l') /\
+    liquidity_loop_old 100 g dur now last 0 = Some (es, l') /\
     l' <> last + Z.of_nat (length es).
 Proof.
   exists 0, 1, (RewardTimeLimit + 12), (-1).
@@ -1032,7 +1032,7 @@ Lemma liquidity_cursor_partial fuel g dur now last es l' :
   cursor_ok g dur last -> now < two62 ->
   cursor_ok g dur (last + MaxEpochsPerUpdate / 2) ->
   update_due g dur now (last + MaxEpochsPerUpdate / 2) = false ->
-  liquidity_loop fuel g dur now last 0 = Some (es, l') ->
+  liquidity_loop_old fuel g dur now last 0 = Some (es, l') ->
   es = zrange (last + 1) (length es) /\ l' = last + Z.of_nat (length es) /\
   Forall (fun e => epoch_end g dur e + RewardTimeLimit <= now) es /\
   now < epoch_end g dur (l' + 1) + RewardTimeLimit.
@@ -1043,4 +1043,85 @@ Proof.
   - destruct (update_loop_spec fuel _ _ _ _ _ _ Hok Hn H) as [A [B [C [D _]]]]. repeat split; assumption.
   - right. rewrite Z.sub_0_r. split; assumption.
   - intros. lia.
+Qed.
+
+(* ------------------------------------------------------------------ the fixed liquidity loop *)
+
+(* one Update of the liquidity contract: exactly the epochs LastEpoch+1 .. LastEpoch+k are rewarded, in order, the
+   stored cursor is LastEpoch+k, every rewarded epoch ended RewardTimeLimit before `now`, at most
+   MaxEpochsPerUpdate/2 epochs per call, and the call stops early only because of that limit *)
+Lemma liquidity_loop_spec fuel : forall g dur now last nres es l',
+  cursor_ok g dur last -> now < two62 -> 0 <= nres ->
+  liquidity_loop fuel g dur now last nres = Some (es, l') ->
+  es = zrange (last + 1) (length es) /\ l' = last + Z.of_nat (length es) /\
+  Forall (fun e => epoch_end g dur e + RewardTimeLimit <= now) es /\
+  cursor_ok g dur l' /\
+  (es <> [] -> nres + 2 * Z.of_nat (length es) < MaxEpochsPerUpdate + 2) /\
+  (now < epoch_end g dur (l' + 1) + RewardTimeLimit \/ MaxEpochsPerUpdate <= nres + 2 * Z.of_nat (length es)).
+Proof.
+  induction fuel as [|k IH]; intros g dur now last nres es l' Hok Hn Hnr H; [discriminate|].
+  cbn [liquidity_loop] in H. destruct (MaxEpochsPerUpdate <=? nres) eqn:Ecap.
+  - inversion H. subst es l'. cbn [length zrange]. split; [reflexivity|]. split; [lia|]. split; [constructor|].
+    replace (last + Z.of_nat 0) with last by lia. split; [exact Hok|]. split; [intros X; contradiction|]. right. cbn. lia.
+  - destruct (update_due g dur now last) eqn:Hdue; cbn [negb] in H.
+    + destruct (cursor_ok_step _ _ _ _ Hok Hn Hdue) as [Hok' Hw]. rewrite Hw in H.
+      destruct (liquidity_loop k g dur now (last + 1) (nres + 2)) as [[es1 l1]|] eqn:E; [|discriminate].
+      inversion H. subst es l'. clear H.
+      assert (Hnr2 : 0 <= nres + 2) by lia.
+      destruct (IH _ _ _ _ _ _ _ Hok' Hn Hnr2 E) as [A [B [C [D [F G]]]]].
+      rewrite (update_due_spec _ _ _ _ Hok) in Hdue.
+      cbn [length zrange]. split; [f_equal; exact A|]. split; [lia|].
+      split; [constructor; [lia|exact C]|]. split; [exact D|]. split.
+      * intros _. destruct es1 as [|e1 es1']; [cbn [length]; lia|].
+        assert (Hne : e1 :: es1' <> []) by discriminate. specialize (F Hne). lia.
+      * destruct G as [G|G]; [left; exact G|right; lia].
+    + inversion H. subst es l'. rewrite (update_due_spec _ _ _ _ Hok) in Hdue.
+      cbn [length zrange]. split; [reflexivity|]. split; [lia|]. split; [constructor|].
+      replace (last + Z.of_nat 0) with last by lia. split; [exact Hok|]. split; [intros X; contradiction|]. left. lia.
+Qed.
+
+Lemma liquidity_loop_terminates fuel : forall g dur now last nres,
+  0 <= nres -> MaxEpochsPerUpdate - nres + 1 < 2 * Z.of_nat fuel -> 0 < Z.of_nat fuel ->
+  liquidity_loop fuel g dur now last nres <> None.
+Proof.
+  induction fuel as [|k IH]; intros g dur now last nres Hnr Hf Hpos; [lia|].
+  cbn [liquidity_loop]. destruct (MaxEpochsPerUpdate <=? nres) eqn:Ecap; [discriminate|].
+  destruct (negb (update_due g dur now last)); [discriminate|].
+  assert (Hk : 0 < Z.of_nat k) by lia.
+  assert (H1 : 0 <= nres + 2) by lia.
+  assert (H2 : MaxEpochsPerUpdate - (nres + 2) + 1 < 2 * Z.of_nat k) by lia.
+  specialize (IH g dur now (wrapS 64 (last + 1)) (nres + 2) H1 H2 Hk).
+  destruct (liquidity_loop k g dur now (wrapS 64 (last + 1)) (nres + 2)) as [[a b]|]; [discriminate|congruence].
+Qed.
+
+(* histories of liquidity updates: no epoch is skipped or repeated *)
+Fixpoint run_liquidity_updates (fuel : nat) (g dur : Z) (nows : list Z) (last : Z) : option (list Z * Z) :=
+  match nows with
+  | [] => Some ([], last)
+  | now :: r =>
+    match liquidity_loop fuel g dur now last 0 with
+    | None => None
+    | Some (es, l') =>
+      match run_liquidity_updates fuel g dur r l' with
+      | Some (es', l'') => Some (es ++ es', l'')
+      | None => None
+      end
+    end
+  end.
+
+Lemma run_liquidity_updates_spec fuel g dur : forall nows last es l',
+  cursor_ok g dur last -> Forall (fun now => now < two62) nows ->
+  run_liquidity_updates fuel g dur nows last = Some (es, l') ->
+  es = zrange (last + 1) (length es) /\ l' = last + Z.of_nat (length es).
+Proof.
+  induction nows as [|now nows IH]; intros last es l' Hok Hn H.
+  - cbn in H. inversion H. subst. cbn [length zrange]. split; [reflexivity|lia].
+  - cbn [run_liquidity_updates] in H. inversion Hn as [|? ? Hn1 Hn2]. subst.
+    destruct (liquidity_loop fuel g dur now last 0) as [[es1 l1]|] eqn:E1; [|discriminate].
+    destruct (run_liquidity_updates fuel g dur nows l1) as [[es2 l2]|] eqn:E2; [|discriminate].
+    inversion H. subst es l'. clear H.
+    destruct (liquidity_loop_spec fuel _ _ _ _ _ _ _ Hok Hn1 (Z.le_refl 0) E1) as [A [B [_ [Hok1 _]]]].
+    destruct (IH _ _ _ Hok1 Hn2 E2) as [A2 B2].
+    rewrite app_length, zrange_app. split; [|lia].
+    rewrite <- A. f_equal. rewrite A2 at 1. f_equal. lia.
 Qed.
